@@ -121,9 +121,9 @@ impl Monitor for C19 {
                             model.get_mut(id).map(|x| x.push('!'));
                         }
                     }
-                    Op::Serde => match serde_json::to_string(&m) {
+                    Op::Serde => match (if i % 2 == 0 { serde_json::to_string(&m) } else { serde_json::to_value(&m).map(|v| v.to_string()) }) {
                         Err(e) => bad("mapping cannot be serialised", e.to_string()),
-                        Ok(js) => match serde_json::from_str::<Mapping<NameId, String>>(&js) {
+                        Ok(js) => match (if i % 3 == 0 { serde_json::from_str::<serde_json::Value>(&js).and_then(serde_json::from_value::<Mapping<NameId, String>>) } else { serde_json::from_str::<Mapping<NameId, String>>(&js) }) {
                             Err(e) => bad("serialised mapping cannot be deserialised", e.to_string()),
                             Ok(m2) => {
                                 let via_get: BTreeMap<u32, String> = (0..=model.keys().max().copied().unwrap_or(0) + 2).filter_map(|k| m2.get(NameId(k)).map(|v| (k, v.clone()))).collect();
@@ -152,6 +152,38 @@ impl Monitor for C19 {
                         gap_seen = true;
                     }
                 }
+                // other ways of consuming the iterator: partially by next()/nth(), the rest through
+                // fold-based consumers (for_each, count, last, collect into a map)
+                if i % 3 == 0 {
+                    let mut part = m.iter();
+                    let mut mpart = model.iter();
+                    let skip = (i / 3) % 4;
+                    let mut same = true;
+                    if skip > 0 {
+                        same &= part.next().map(|(k, v)| (k.0, v.clone())) == mpart.next().map(|(k, v)| (*k, v.clone()));
+                    }
+                    if skip > 1 {
+                        same &= part.nth(skip - 2).map(|(k, v)| (k.0, v.clone())) == mpart.nth(skip - 2).map(|(k, v)| (*k, v.clone()));
+                    }
+                    let (lo, hi) = part.size_hint();
+                    let mut rest: Vec<(u32, String)> = vec![];
+                    part.for_each(|(k, v)| rest.push((k.0, v.clone())));
+                    let mrest: Vec<(u32, String)> = mpart.map(|(k, v)| (*k, v.clone())).collect();
+                    if !same || rest != mrest {
+                        bad("iter() consumed partially and then through for_each differs from the reference map", format!("op {i}: skipped {skip}: {:?} vs {:?}", rest.iter().map(|x| x.0).collect::<Vec<_>>(), mrest.iter().map(|x| x.0).collect::<Vec<_>>()));
+                    }
+                    if lo > mrest.len() || hi.is_some_and(|h| h < mrest.len()) {
+                        bad("iter().size_hint() excludes the true number of remaining pairs", format!("op {i}: ({lo}, {hi:?}) but {} remain", mrest.len()));
+                    }
+                    if m.iter().count() != model.len() || m.iter().last().map(|(k, _)| k.0) != model.keys().last().copied() {
+                        bad("iter().count() / last() disagree with the reference map", format!("op {i}"));
+                    }
+                    let as_map: std::collections::HashMap<u32, String> = m.iter().skip(skip.min(1)).map(|(k, v)| (k.0, v.clone())).collect();
+                    let mmap: std::collections::HashMap<u32, String> = model.iter().skip(skip.min(1)).map(|(k, v)| (*k, v.clone())).collect();
+                    if as_map != mmap {
+                        bad("iter() collected into a map differs from the reference map", format!("op {i}"));
+                    }
+                }
                 if it != mi {
                     bad("iter() differs from the reference map", format!("op {i}: yields ids {:?}, reference {:?}", it.iter().map(|x| x.0).collect::<Vec<_>>(), mi.iter().map(|x| x.0).collect::<Vec<_>>()));
                 }
@@ -163,6 +195,44 @@ impl Monitor for C19 {
                 }
             }
         });
+        // value types whose values can serialise as `null` (Option<T>, ()): same history, one round
+        // trip at the end (known finding, see known_findings.json / DESIGN 7.1)
+        if c.ops.iter().any(|o| matches!(o, Op::Serde)) {
+            let r2 = catch(|| {
+                let mut m: Mapping<NameId, Option<u32>> = Mapping::default();
+                let mut model: BTreeMap<u32, Option<u32>> = BTreeMap::new();
+                for op in &c.ops {
+                    match op {
+                        Op::Insert(id, v) => {
+                            let val = if v % 4 == 0 { None } else { Some(*v) };
+                            m.insert(NameId(*id), val);
+                            model.insert(*id, val);
+                        }
+                        Op::Unset(id) => {
+                            m.unset(NameId(*id));
+                            model.remove(id);
+                        }
+                        _ => {}
+                    }
+                }
+                let js = serde_json::to_string(&m).ok()?;
+                let m2: Mapping<NameId, Option<u32>> = serde_json::from_str(&js).ok()?;
+                let back: BTreeMap<u32, Option<u32>> = m2.iter().map(|(k, v)| (k.0, *v)).collect();
+                Some((back, model))
+            });
+            if let Caught::Ok(Some((back, model))) = r2 {
+                ctx.rep.count("null-valued-round-trips");
+                if back != model {
+                    let lost: Vec<u32> = model.keys().filter(|k| !back.contains_key(k)).copied().collect();
+                    let only_null_lost = lost.iter().all(|k| model[k].is_none()) && back.iter().all(|(k, v)| model.get(k) == Some(v));
+                    if only_null_lost {
+                        ctx.violation("serde round trip loses entries whose value serialises as null", format!("Mapping<NameId, Option<u32>>: ids {:?} hold None and are absent after the round trip", lost));
+                    } else {
+                        ctx.violation("serde round trip changes the contents (Option-valued mapping)", format!("{:?} vs {:?}", back, model));
+                    }
+                }
+            }
+        }
         match r {
             Caught::Ok(()) => {}
             Caught::Panic(pi) => ctx.violation(format!("panic in mapping operation: {}", pi.signature()), String::new()),
